@@ -646,3 +646,60 @@ M("C04-helper-wrong-unit", "C04", "R4.1", PJ,
 B("benign-filter-to-comprehension", ["C04", "C03", "C06"], PJ,
   """allocating_workers = list(filter(lambda worker: worker.has_workamount_skill(task.name) and self.__is_allocated_worker(worker, task), free_worker_list))""",
   """allocating_workers = [worker for worker in free_worker_list if worker.has_workamount_skill(task.name) and self.__is_allocated_worker(worker, task)]""")
+
+# ---------------------------------------------------------------------------------------- C03
+M("C03-drop-resource-side-append", "C03", "R3.1", PJ,
+  """                            task.allocated_worker_list.append(worker)
+                            worker.assigned_task_list.append(task)
+                            free_worker_list = [w for w in free_worker_list if w.ID != worker.ID]
+""",
+  """                            task.allocated_worker_list.append(worker)
+                            free_worker_list = [w for w in free_worker_list if w.ID != worker.ID]
+""")
+M("C03-free-list-not-shrunk", "C03", "R3.2", PJ,
+  """                            worker.assigned_task_list.append(task)
+                            free_worker_list = [w for w in free_worker_list if w.ID != worker.ID]
+""",
+  """                            worker.assigned_task_list.append(task)
+""")
+M("C03-keep-workers-on-finish", "C03", "R3.3", WF,
+  """                    task.allocated_worker_list = []
+""", "")
+M("C03-working-while-absent", "C03", "R3.4", WF,
+  """                for worker in task.allocated_worker_list:
+                    if worker.state == BaseWorkerState.FREE:
+                        worker.state = BaseWorkerState.WORKING""",
+  """                for worker in task.allocated_worker_list:
+                    if worker.state != BaseWorkerState.WORKING:
+                        worker.state = BaseWorkerState.WORKING""")
+M("C03-allocate-to-none-tasks", "C03", "R3.5", PJ,
+  """ready_and_working_task_list = list(filter(lambda task: task.state == BaseTaskState.READY or task.state == BaseTaskState.WORKING, self.workflow.task_list))""",
+  """ready_and_working_task_list = list(filter(lambda task: task.state != BaseTaskState.FINISHED, self.workflow.task_list))""")
+M("C03-facility-not-released", "C03", "R3.3", WF,
+  """                                facility.state = BaseFacilityState.FREE
+                                facility.assigned_task_list.remove(task)""",
+  """                                facility.state = BaseFacilityState.FREE""")
+M("C03-worker-not-freed", "C03", "R3.3", WF,
+  """                            worker.state = BaseWorkerState.FREE
+                            worker.assigned_task_list.remove(task)""",
+  """                            worker.assigned_task_list.remove(task)""")
+M("C03-facility-not-set-working", "C03", "R3.4", WF,
+  """                if task.need_facility:
+                    for facility in task.allocated_facility_list:
+                        facility.state = BaseFacilityState.WORKING""",
+  """                if task.need_facility and task.auto_task:
+                    for facility in task.allocated_facility_list:
+                        facility.state = BaseFacilityState.WORKING""")
+M("C03-shrinks-wrong-list", "C03", "R3.2", PJ,
+  """                                allocating_workers.remove(worker)
+                                free_worker_list = [w for w in free_worker_list if w.ID != worker.ID]
+                                break""",
+  """                                allocating_workers.remove(worker)
+                                worker_list = [w for w in worker_list if w.ID != worker.ID]
+                                break""")
+M("C03-perform-changes-worker-state", "C03", "R3.4", TK,
+  """                for worker in self.allocated_worker_list:
+                    work_amount_progress = work_amount_progress + worker.get_work_amount_skill_progress(self.name, seed=seed)""",
+  """                for worker in self.allocated_worker_list:
+                    worker.state = worker.state
+                    work_amount_progress = work_amount_progress + worker.get_work_amount_skill_progress(self.name, seed=seed)""")
